@@ -340,6 +340,10 @@ package wire
 //@ define wired(given *types.Tuple, calls []call, set *ProviderSet) = (forall k, j :: 0 <= k && k < len(calls) && 0 <= j && j < len(calls[k].ins) && calls[k].args[j] < given.Len() ==> tid(given.At(calls[k].args[j]).Type()) == tid(PT(set.providerMap, calls[k].ins[j]).t)) && (forall k, j :: 0 <= k && k < len(calls) && 0 <= j && j < len(calls[k].ins) && calls[k].args[j] >= given.Len() ==> tid(calls[calls[k].args[j] - given.Len()].out) == tid(PT(set.providerMap, calls[k].ins[j]).t))
 //@ define wiredLen(calls []call) = forall k :: 0 <= k && k < len(calls) && len(calls[k].ins) > 0 ==> len(calls[k].ins) == len(calls[k].args)
 //@ define canon(pm *typeutil.Map) = forall k int :: TMD[pm][k] && TMD[pm][tid(TMV[pm][k].(*ProvidedType).t)] ==> tid(PT(pm, TMV[pm][k].(*ProvidedType).t).t) == tid(TMV[pm][k].(*ProvidedType).t)
+// [C06] a type is given up (abort marker) only if it has no source itself, or after ALL its dependencies were visited
+// (so every missing type below it has been reported, none is skipped)
+//@ define depsIndexed(index *typeutil.Map, pm *typeutil.Map, k int) = (tid(TMV[pm][k].(*ProvidedType).t) != k ==> TMD[index][tid(TMV[pm][k].(*ProvidedType).t)]) && (tid(TMV[pm][k].(*ProvidedType).t) == k && TMV[pm][k].(*ProvidedType).p != nil ==> (forall j :: 0 <= j && j < len(TMV[pm][k].(*ProvidedType).p.Args) ==> TMD[index][tid(TMV[pm][k].(*ProvidedType).p.Args[j].Type)])) && (tid(TMV[pm][k].(*ProvidedType).t) == k && TMV[pm][k].(*ProvidedType).p == nil && TMV[pm][k].(*ProvidedType).f != nil ==> TMD[index][tid(TMV[pm][k].(*ProvidedType).f.Parent)])
+//@ define abortOK(index *typeutil.Map, pm *typeutil.Map, abort error) = forall k int :: TMD[index][k] && TMV[index][k] == abort ==> !TMD[pm][k] || depsIndexed(index, pm, k)
 //@ define stkOK(stk []frame) = forall i :: 0 <= i && i < len(stk) ==> stk[i].t != nil
 
 //@ func solve
@@ -360,6 +364,7 @@ package wire
 //@   loop 2 invariant idxOK(index, given, calls, set, errAbort, len(ec.errors))
 //@   loop 2 invariant callIdx(index, given, calls)
 //@   loop 2 invariant [C06] insOK(calls, set)
+//@   loop 2 invariant [C06] abortOK(index, set.providerMap, errAbort)
 //@   loop 2 invariant [C02] idxTyped(index, given, calls, set)
 //@   loop 2 invariant [C02] wired(given, calls, set) && wiredLen(calls)
 //@   loop 4 invariant 0 - 1 <= i && stkOK(stk)
@@ -369,6 +374,7 @@ package wire
 //@   loop 5 invariant [C02] forall j :: 0 <= j && j < done && args[j] >= given.Len() ==> tid(calls[args[j] - given.Len()].out) == tid(PT(set.providerMap, ins[j]).t)
 //@   loop 5 invariant wfCalls(calls, given.Len())
 //@   loop 5 invariant [C06] insOK(calls, set)
+//@   loop 5 invariant [C06] forall j :: 0 <= j && j < len(p.Args) ==> TMD[index][tid(p.Args[j].Type)]
 //@   loop 5 invariant [C02] wired(given, calls, set) && wiredLen(calls)
 //@   loop 6 invariant len(fieldNames) == done
 //@   props C02 C06
